@@ -114,6 +114,8 @@ def leaf_value(rng, L, sizes):
                 shape.append(1 if (t.bcast and rng.random() < 0.3) else sizes.get(t.name, 2))
             else:
                 shape.append(2)
+        if rng.random() < 0.08:
+            return real.hooked_shape_array(shape)  # reading .shape makes (nested) jaxtyped calls in the middle of the leaf check
         return real.np_array(shape)
     if k == "tuple":
         return tuple(leaf_value(rng, x, sizes) for x in L[1])
